@@ -363,14 +363,32 @@ func siteTags(sp *spec.Spec, m *spec.Method, decl *spec.Attr, site string, reque
 	}
 	if request && m.HTTP != nil && m.Payload != nil {
 		// the listed defect loses the errors accumulated for path, query and header parameters (they are decoded
-		// before the cookies): only a violation located there can be explained by it
+		// before the cookies) and for the cookies decoded before a required one: only a violation located there
+		// can be explained by it
 		loc := ""
 		if site != "" {
 			loc, _ = siteLocKind(sp, m, decl, site, nil, false)
 		}
 		prt, _ := sp.Resolve(m.Payload.Type)
+		// a violation located in a cookie is lost the same way when a required cookie is decoded AFTER it
+		// (cookies are decoded in the order the design maps them)
+		siteTop, afterSite := "", false
+		if loc == "cookie" {
+			if p := strings.SplitN(site, ":", 3); len(p) == 3 {
+				siteTop = topAttr(p[2])
+			}
+		}
 		for _, c := range m.HTTP.Cookies {
-			if prt != nil && prt.Kind == spec.Object && prt.IsRequired(c.Attr) && (site == "" || loc == "path" || loc == "query" || loc == "header") {
+			if loc == "cookie" {
+				if c.Attr == siteTop {
+					afterSite = true
+					continue
+				}
+				if !afterSite {
+					continue
+				}
+			}
+			if prt != nil && prt.Kind == spec.Object && prt.IsRequired(c.Attr) && (site == "" || loc == "path" || loc == "query" || loc == "header" || loc == "cookie") {
 				tags = append(tags, "required-cookie")
 				break
 			}
